@@ -863,6 +863,13 @@ class C04(Oracle):
                 if pflags.get(f, False) and not post[f]:
                     w.violation('C04', 'flag-lowered', st, {'flag': f, 'slot': st.dest}, culprit)
                     return
+        if 'selfreset_at' in st.extra and sto.arith is not None and st.extra.get('arith_route') == 'np' and \
+                (st.dest is not None or st.extra.get('np_two_stage')):
+            # NumPy route into a register is two-stage: the register's own write has the intermediate
+            # result (an Fxp that carries the operands' flag) as its source, and the library hands a
+            # source's flag on BEFORE it stores - so a handler of the register that resets it during
+            # that store legitimately leaves it down (seen: VERIF_SEED=606)
+            prop_inacc = False
         if prop_inacc and not aborted and not post['inaccuracy']:
             w.violation('C04', 'inaccuracy-propagation', st,
                         {'operands': list(sto.prop), 'arith': sto.arith}, culprit)
